@@ -46,7 +46,10 @@ def run(ctx):
         p = {"k_nn": rng.choice([2, 3, 5]), "sampling_times": rng.choice([40, 80]), "alpha": rng.choice([0.01, 0.05, 0.2])}
         if i % 3 != 0:
             C.choose(rng, p, C.BATCH_KINDS)
-        t3.append(D.run_nndvi(p, D.nndvi_history(rng, nb, equal_sizes=(i % 4 == 0)), seed=rng.randrange(10 ** 6)))
+        if i % 3 == 1:
+            p["halves"] = True       # fractional coordinates; batches on the even lattice arrive with an integer dtype
+            p["feed"]["kinds"] = [k for k in p["feed"]["kinds"] if k in ("intarray", "lists", "intframe")] or ["intarray"]
+        t3.append(D.run_nndvi(p, D.nndvi_history(rng, nb, equal_sizes=(i % 4 == 0), some_even=bool(p.get("halves"))), seed=rng.randrange(10 ** 6)))
     ctx.validate("NNSP", t3, "NNDVI batch histories (unequal batch sizes)", sabotage=D.sabotage,
                  replay=lambda i: {"mode": "nndvi", "params": t3[i]["params"], "script": t3[i]["script"], "seed": t3[i]["seed"]},
                  nontrivial=lambda t: any(e["state"] == "drift" for e in t["ev"]))
